@@ -114,8 +114,10 @@ Send ==
           /\ ntrunc' = IF full THEN ntrunc + 1 ELSE ntrunc
           /\ E.qlen = Len(queue')
           /\ Len(queue') <= cap
+    \* the call has had its critical section (SendRet "sent" asks for it; a second one for the same call is refused above)
+    /\ kind' = [kind EXCEPT ![E.item] = "sent"]
     /\ UNCHANGED <<cap, done, batch, cur, phase, lastRem, attempts, lastWait, reg, fired,
-                   closing, senderGone, recvGone, exited, kind, budget, prevMax, ereg, efired>>
+                   closing, senderGone, recvGone, exited, budget, prevMax, ereg, efired>>
 
 (* C09: the fallible send enqueues iff there is room, never discards anything *)
 TrySend ==
@@ -150,6 +152,10 @@ SendRet ==
     /\ E.res = "err-full-returned" => E.item \notin SeqSet(acc)
     /\ E.res \in {"ok", "err-full-returned", "err-closed", "sent"}
     /\ E.res = "err-closed" => (~Open \/ closing)
+    \* C06: a plain send has no way to hand the item back, so when it returns the channel has decided the item in a
+    \* critical section of its own (accepted it, or refused it because the channel is closed): a send that returns
+    \* without one has lost the item silently (e.g. by giving up when the lock is contended)
+    /\ E.res = "sent" => (E.item \in DOMAIN kind /\ kind[E.item] = "sent")
     /\ UNCHANGED <<cap, queue, acc, done, trunc, ntrunc, batch, cur, phase, lastRem, attempts,
                    lastWait, reg, fired, closing, senderGone, recvGone, exited, kind, budget, prevMax, ereg, efired>>
 
